@@ -215,7 +215,7 @@ func (c *Ctx) TRV(rule string) []report.Obligation {
 			case *ssa.Call:
 				if x.Call.StaticCallee() == done {
 					doneCall = in
-				} else if x.Call.StaticCallee() == nil && !x.Call.IsInvoke() && loadedField(x.Call.Value) == "visitor" {
+				} else if x.Call.StaticCallee() == nil && !x.Call.IsInvoke() && loadedField(x.Call.Value) == c.trvRoles().visitor {
 					visitorCall = in
 				}
 			case *ssa.Send:
@@ -280,7 +280,7 @@ func (c *Ctx) TRV(rule string) []report.Obligation {
 					continue
 				}
 				if bo, isB := iff.Cond.(*ssa.BinOp); isB && (bo.Op == token.NEQ || bo.Op == token.EQL) {
-					if lk, isL := bo.X.(*ssa.Lookup); isL && loadedField(lk.X) == "status" {
+					if lk, isL := bo.X.(*ssa.Lookup); isL && loadedField(lk.X) == c.trvRoles().status {
 						if n, isC := constInt(bo.Y); isC && n == 1 {
 							cd = true
 						}
@@ -294,9 +294,9 @@ func (c *Ctx) TRV(rule string) []report.Obligation {
 		out = append(out, verdict(okFalse, rule+"-4", "ready :: false iff a dependency is not visited", pos(ready),
 			"every `return false` is control dependent on status[dep] != vertexVisited", "a `return false` does not depend on the comparison of status[dep] with vertexVisited"))
 		// the map ranged over is the dependency set chosen by direction
-		dT, dF, okSel := c.flagSelect(ready, "inverse")
-		nT, nF, okAdj := c.flagSelect(adj, "inverse")
-		sT, sF, okExt := c.flagSelect(ext, "inverse")
+		dT, dF, okSel := c.flagSelect(ready, c.trvRoles().inverse)
+		nT, nF, okAdj := c.flagSelect(adj, c.trvRoles().inverse)
+		sT, sF, okExt := c.flagSelect(ext, c.trvRoles().inverse)
 		if !okSel || !okAdj || !okExt {
 			out = append(out, bad(rule+"-4", "direction tables", pos(ready), fmt.Sprintf("cannot read the inverse/forward selection of ready (%v), adjacentNodes (%v), extremityNodes (%v)", okSel, okAdj, okExt)))
 		} else {
@@ -317,7 +317,7 @@ func (c *Ctx) TRV(rule string) []report.Obligation {
 		for _, b := range f.Blocks {
 			for _, in := range b.Instrs {
 				mu, ok := in.(*ssa.MapUpdate)
-				if !ok || loadedField(mu.Map) != "status" {
+				if !ok || loadedField(mu.Map) != c.trvRoles().status {
 					continue
 				}
 				n, isC := constInt(mu.Value)
@@ -337,14 +337,14 @@ func (c *Ctx) TRV(rule string) []report.Obligation {
 	tas := false
 	for _, b := range enter.Blocks {
 		for _, in := range b.Instrs {
-			if mu, ok := in.(*ssa.MapUpdate); ok && loadedField(mu.Map) == "status" {
+			if mu, ok := in.(*ssa.MapUpdate); ok && loadedField(mu.Map) == c.trvRoles().status {
 				tas = factHolds(b, func(cond ssa.Value, val bool) bool {
 					ex, ok := cond.(*ssa.Extract)
 					if !ok || ex.Index != 1 || val {
 						return false
 					}
 					lk, ok := ex.Tuple.(*ssa.Lookup)
-					return ok && loadedField(lk.X) == "status"
+					return ok && loadedField(lk.X) == c.trvRoles().status
 				})
 			}
 		}
@@ -395,13 +395,13 @@ func (c *Ctx) TRV(rule string) []report.Obligation {
 		good := false
 		desc := c.P.Term(arg, 4)
 		if bo, ok := arg.(*ssa.BinOp); ok && bo.Op == token.ADD {
-			if n, isC := constInt(bo.Y); isC && int(n) == coord && loadedField(bo.X) == "maxConcurrency" {
+			if n, isC := constInt(bo.Y); isC && int(n) == coord && loadedField(bo.X) == c.trvRoles().maxConc {
 				good = true
 			}
 		}
 		gated := factHolds(sl[0].Block(), func(cond ssa.Value, val bool) bool {
 			bo, ok := cond.(*ssa.BinOp)
-			return ok && val && bo.Op == token.GTR && loadedField(bo.X) == "maxConcurrency"
+			return ok && val && bo.Op == token.GTR && loadedField(bo.X) == c.trvRoles().maxConc
 		})
 		out = append(out, verdict(good && gated, rule+"-10", "walk :: limit = maxConcurrency + coordinators", c.P.InstrPos(sl[0]),
 			fmt.Sprintf("SetLimit(%s) with %d non-visit closure(s) spawned by walk, applied only when maxConcurrency > 0", desc, coord),
@@ -633,7 +633,7 @@ func (c *Ctx) TRVCount(rule string) []report.Obligation {
 	if bd, ok := c.bindingOf(cell).(*ssa.Alloc); ok {
 		for _, r := range *bd.Referrers() {
 			if st, ok := r.(*ssa.Store); ok && st.Addr == ssa.Value(bd) && derivedFromLen(st.Val, 3) {
-				if call, ok := st.Val.(*ssa.Call); ok && loadedField(call.Call.Args[0]) == "vertices" {
+				if call, ok := st.Val.(*ssa.Call); ok && loadedField(call.Call.Args[0]) == c.trvRoles().vertices {
 					init = true
 				}
 			}
@@ -660,4 +660,76 @@ func isCounter(v ssa.Value, cell *ssa.FreeVar) bool {
 		}
 	}
 	return false
+}
+
+// trvRoles resolves the fields the traversal rules talk about by their type and position in the structs of package
+// graph, not by name: the struct with a sync.Mutex is the traversal state; its map[string]int field is the status
+// table, its function-typed field the visitor; the struct it embeds holds the options (the bool is the direction,
+// the int the concurrency limit); the graph is the struct with a map of vertex pointers.
+type trvRoleNames struct{ status, visitor, inverse, maxConc, vertices string }
+
+func (c *Ctx) trvRoles() *trvRoleNames {
+	if c.trvRoleCache != nil {
+		return c.trvRoleCache
+	}
+	r := &trvRoleNames{status: "status", visitor: "visitor", inverse: "inverse", maxConc: "maxConcurrency", vertices: "vertices"}
+	c.trvRoleCache = r
+	pk := c.P.PkgByRel["graph"]
+	if pk == nil {
+		return r
+	}
+	scope := pk.Types.Scope()
+	for _, name := range scope.Names() {
+		tn, ok := scope.Lookup(name).(*types.TypeName)
+		if !ok {
+			continue
+		}
+		st, ok := tn.Type().Underlying().(*types.Struct)
+		if !ok {
+			continue
+		}
+		hasMutex := false
+		for i := 0; i < st.NumFields(); i++ {
+			if isSyncType(st.Field(i).Type()) {
+				hasMutex = true
+			}
+		}
+		if hasMutex {
+			for i := 0; i < st.NumFields(); i++ {
+				f := st.Field(i)
+				switch ft := f.Type().Underlying().(type) {
+				case *types.Map:
+					if isIntType(ft.Elem()) {
+						r.status = f.Name()
+					}
+				case *types.Signature:
+					r.visitor = f.Name()
+				case *types.Pointer:
+					if ost, ok := ft.Elem().Underlying().(*types.Struct); ok && f.Embedded() {
+						for j := 0; j < ost.NumFields(); j++ {
+							of := ost.Field(j)
+							if bt, ok := of.Type().Underlying().(*types.Basic); ok {
+								switch {
+								case bt.Kind() == types.Bool:
+									r.inverse = of.Name()
+								case bt.Info()&types.IsInteger != 0:
+									r.maxConc = of.Name()
+								}
+							}
+						}
+					}
+				}
+			}
+			continue
+		}
+		for i := 0; i < st.NumFields(); i++ {
+			f := st.Field(i)
+			if mt, ok := f.Type().Underlying().(*types.Map); ok && st.NumFields() == 1 {
+				if _, isPtr := mt.Elem().Underlying().(*types.Pointer); isPtr {
+					r.vertices = f.Name()
+				}
+			}
+		}
+	}
+	return r
 }
